@@ -183,7 +183,10 @@ func (e *seqEnv) feasible(s *Seg) bool {
 
 func (e *seqEnv) foldPredicate(fn *ssa.Function) (bool, bool) {
 	fp := Paths(fn)
-	if len(fp.Headers) > 0 || fp.Truncated {
+	if len(fp.Headers) > 0 {
+		return e.foldLoopPredicate(fn)
+	}
+	if fp.Truncated {
 		return false, false
 	}
 	found, res := false, false
@@ -696,4 +699,342 @@ func staticReachesInvoke(fn *ssa.Function, method string, d int) bool {
 		}
 	}
 	return false
+}
+
+// ---- exhaustive folding of a pure predicate with loops ----
+//
+// foldLoopPredicate evaluates fn(decoded) for one concrete decoded sequence by following the function's
+// control flow with concrete values: integers, layer-type symbols, booleans, the decoded slice and slices of
+// package-level layer-type tables (whose members are read from the package initialiser). It is used only on
+// the finite set of sequences the parser can produce, all of which are enumerated, so the result is a
+// decision over that set, not a sample. Anything outside this vocabulary makes the fold give up (unknown).
+
+type cslice struct {
+	elems []string
+}
+
+func layerTableOf(g *ssa.Global) ([]string, bool) {
+	if g == nil || g.Pkg == nil {
+		return nil, false
+	}
+	at, ok := g.Type().(*types.Pointer).Elem().Underlying().(*types.Array)
+	if !ok {
+		return nil, false
+	}
+	init := g.Pkg.Func("init")
+	if init == nil {
+		return nil, false
+	}
+	out := make([]string, at.Len())
+	for _, b := range init.Blocks {
+		for _, in := range b.Instrs {
+			st, isSt := in.(*ssa.Store)
+			if !isSt {
+				continue
+			}
+			ia, isIA := st.Addr.(*ssa.IndexAddr)
+			if !isIA || ia.X != ssa.Value(g) {
+				continue
+			}
+			k, isK := constInt(ia.Index)
+			if !isK || k < 0 || k >= at.Len() {
+				return nil, false
+			}
+			if u, isU := st.Val.(*ssa.UnOp); isU && u.Op == token.MUL {
+				if lg, isG := u.X.(*ssa.Global); isG && strings.HasPrefix(lg.Name(), "LayerType") {
+					out[k] = lg.Name()
+				}
+			}
+		}
+	}
+	for _, x := range out {
+		if x == "" {
+			return nil, false
+		}
+	}
+	return out, true
+}
+
+func (e *seqEnv) foldLoopPredicate(fn *ssa.Function) (res bool, known bool) {
+	if len(fn.Params) != 1 || len(fn.Blocks) == 0 {
+		return false, false
+	}
+	if theProg != nil {
+		for _, b := range fn.Blocks {
+			for _, in := range b.Instrs {
+				if u, ok := in.(*ssa.UnOp); ok {
+					if g, isG := u.X.(*ssa.Global); isG && g.Pkg == fn.Pkg && len(theProg.StoresToGlobalOutsideInit(g)) > 0 {
+						return false, false
+					}
+				}
+			}
+		}
+	}
+	ints := map[ssa.Value]int64{}
+	syms := map[ssa.Value]string{}
+	bools := map[ssa.Value]bool{}
+	slices := map[ssa.Value]cslice{}
+	slices[fn.Params[0]] = cslice{elems: e.q}
+	ptrs := map[ssa.Value]string{} // address of one element: its symbol
+	var getInt func(v ssa.Value) (int64, bool)
+	getInt = func(v ssa.Value) (int64, bool) {
+		if k, ok := constInt(v); ok {
+			return k, true
+		}
+		k, ok := ints[v]
+		return k, ok
+	}
+	getSym := func(v ssa.Value) (string, bool) {
+		if u, ok := v.(*ssa.UnOp); ok && u.Op == token.MUL {
+			if g, isG := u.X.(*ssa.Global); isG && strings.HasPrefix(g.Name(), "LayerType") {
+				return g.Name(), true
+			}
+		}
+		sv, ok := syms[v]
+		return sv, ok
+	}
+	getBool := func(v ssa.Value) (bool, bool) {
+		if b, ok := constBool(v); ok {
+			return b, true
+		}
+		b, ok := bools[v]
+		return b, ok
+	}
+	getSlice := func(v ssa.Value) (cslice, bool) {
+		if sl, ok := slices[v]; ok {
+			return sl, true
+		}
+		// a package-level table (pointer to array) or its loaded value
+		if g, isG := v.(*ssa.Global); isG {
+			if t, okT := layerTableOf(g); okT {
+				return cslice{elems: t}, true
+			}
+		}
+		if u, isU := v.(*ssa.UnOp); isU && u.Op == token.MUL {
+			if g, isG := u.X.(*ssa.Global); isG {
+				if t, okT := layerTableOf(g); okT {
+					return cslice{elems: t}, true
+				}
+			}
+		}
+		return cslice{}, false
+	}
+	blk := fn.Blocks[0]
+	var prev *ssa.BasicBlock
+	for step := 0; step < 400; step++ {
+		var next *ssa.BasicBlock
+		for _, in := range blk.Instrs {
+			switch t := in.(type) {
+			case *ssa.DebugRef:
+			case *ssa.Phi:
+				idx := -1
+				for i, pb := range blk.Preds {
+					if pb == prev {
+						idx = i
+					}
+				}
+				if idx < 0 {
+					return false, false
+				}
+				ev := t.Edges[idx]
+				if k, ok := getInt(ev); ok {
+					ints[t] = k
+				} else if sv, ok := getSym(ev); ok {
+					syms[t] = sv
+				} else if b, ok := getBool(ev); ok {
+					bools[t] = b
+				} else if sl, ok := getSlice(ev); ok {
+					slices[t] = sl
+				} else {
+					return false, false
+				}
+			case *ssa.Convert:
+				if k, ok := getInt(t.X); ok {
+					ints[t] = k
+				} else if sv, ok := getSym(t.X); ok {
+					syms[t] = sv
+				} else {
+					return false, false
+				}
+			case *ssa.ChangeType:
+				if sv, ok := getSym(t.X); ok {
+					syms[t] = sv
+				} else if k, ok := getInt(t.X); ok {
+					ints[t] = k
+				} else {
+					return false, false
+				}
+			case *ssa.Call:
+				bi, isB := t.Call.Value.(*ssa.Builtin)
+				if !isB || bi.Name() != "len" {
+					return false, false
+				}
+				sl, ok := getSlice(t.Call.Args[0])
+				if !ok {
+					if at, isA := t.Call.Args[0].Type().Underlying().(*types.Array); isA {
+						ints[t] = at.Len()
+						continue
+					}
+					return false, false
+				}
+				ints[t] = int64(len(sl.elems))
+			case *ssa.Slice:
+				sl, ok := getSlice(t.X)
+				if !ok {
+					return false, false
+				}
+				lo, hi := int64(0), int64(len(sl.elems))
+				if t.Low != nil {
+					k, okK := getInt(t.Low)
+					if !okK {
+						return false, false
+					}
+					lo = k
+				}
+				if t.High != nil {
+					k, okK := getInt(t.High)
+					if !okK {
+						return false, false
+					}
+					hi = k
+				}
+				if lo < 0 || hi > int64(len(sl.elems)) || lo > hi {
+					e.oob = fmt.Sprintf("slice bounds [%d:%d] out of range in %s", lo, hi, fn.Name())
+					return false, false
+				}
+				slices[t] = cslice{elems: sl.elems[lo:hi]}
+			case *ssa.IndexAddr:
+				sl, ok := getSlice(t.X)
+				k, okK := getInt(t.Index)
+				if !ok || !okK {
+					return false, false
+				}
+				if k < 0 || k >= int64(len(sl.elems)) {
+					e.oob = fmt.Sprintf("index %d out of range in %s", k, fn.Name())
+					return false, false
+				}
+				ptrs[t] = sl.elems[k]
+			case *ssa.Index:
+				sl, ok := getSlice(t.X)
+				k, okK := getInt(t.Index)
+				if !ok || !okK {
+					return false, false
+				}
+				if k < 0 || k >= int64(len(sl.elems)) {
+					e.oob = fmt.Sprintf("index %d out of range in %s", k, fn.Name())
+					return false, false
+				}
+				syms[t] = sl.elems[k]
+			case *ssa.UnOp:
+				switch t.Op {
+				case token.MUL:
+					if sv, ok := ptrs[t.X]; ok {
+						syms[t] = sv
+					} else if _, ok := getSym(t); ok {
+						// a layer-type constant
+					} else if sl, ok := getSlice(t); ok {
+						slices[t] = sl
+					} else {
+						return false, false
+					}
+				case token.NOT:
+					b, ok := getBool(t.X)
+					if !ok {
+						return false, false
+					}
+					bools[t] = !b
+				default:
+					return false, false
+				}
+			case *ssa.BinOp:
+				if x, okX := getInt(t.X); okX {
+					y, okY := getInt(t.Y)
+					if !okY {
+						return false, false
+					}
+					switch t.Op {
+					case token.ADD:
+						ints[t] = x + y
+					case token.SUB:
+						ints[t] = x - y
+					case token.EQL:
+						bools[t] = x == y
+					case token.NEQ:
+						bools[t] = x != y
+					case token.LSS:
+						bools[t] = x < y
+					case token.LEQ:
+						bools[t] = x <= y
+					case token.GTR:
+						bools[t] = x > y
+					case token.GEQ:
+						bools[t] = x >= y
+					default:
+						return false, false
+					}
+					continue
+				}
+				if x, okX := getSym(t.X); okX {
+					y, okY := getSym(t.Y)
+					if !okY {
+						return false, false
+					}
+					switch t.Op {
+					case token.EQL:
+						bools[t] = x == y
+					case token.NEQ:
+						bools[t] = x != y
+					default:
+						return false, false
+					}
+					continue
+				}
+				if x, okX := getBool(t.X); okX {
+					y, okY := getBool(t.Y)
+					if !okY {
+						return false, false
+					}
+					switch t.Op {
+					case token.EQL:
+						bools[t] = x == y
+					case token.NEQ:
+						bools[t] = x != y
+					case token.AND, token.LAND:
+						bools[t] = x && y
+					case token.OR, token.LOR:
+						bools[t] = x || y
+					default:
+						return false, false
+					}
+					continue
+				}
+				return false, false
+			case *ssa.If:
+				b, ok := getBool(t.Cond)
+				if !ok {
+					return false, false
+				}
+				if b {
+					next = blk.Succs[0]
+				} else {
+					next = blk.Succs[1]
+				}
+			case *ssa.Jump:
+				next = blk.Succs[0]
+			case *ssa.Return:
+				if len(t.Results) != 1 {
+					return false, false
+				}
+				b, ok := getBool(t.Results[0])
+				return b, ok
+			default:
+				return false, false
+			}
+		}
+		if next == nil {
+			return false, false
+		}
+		prev, blk = blk, next
+	}
+	return false, false
 }
